@@ -13,6 +13,11 @@ binary32 / binary64 midpoint and width: error kind, result dtype and every eleme
 be equal (theorems: Lemmas/C19Float.lean).  Predicate only: prices that DECREASE in volatility
 (in-the-money binaries, user pricers through
 find_implied_volatility); modules built from a simulated derivative with the state omitted.
+The same resolution family through find_implied_volatility (op "bisect_fp" as well) and with max_iter too small for a reachable precision;
+every function / pricer handed to the code counts its evaluations (a search that ignores max_iter is stopped and reported).
+The modules' implied_volatility (every kind, float32 and float64 data) with precisions at / below the resolution of the data: RuntimeError, or
+a volatility really within `precision` of the one that reproduces the price -- never a silently looser answer (predicate only; oracle = a
+float64 module on the same numbers).  find_implied_volatility with the caller's max_iter (0 .. 1000) on user pricers and module prices.
 The caller's tensors used AGAIN after a call: one pair of bracket tensors of the full shape of the problem (also 0-dim ones) serves a
 second and a third call of bisect (new targets in a new tensor, in the caller's previous target tensor refilled in place, or the same
 tensor again) -- every such call goes to the model ops "bisect" (Rat and Float carrier) / "bisect_fp" with the bracket as the caller
@@ -180,6 +185,22 @@ def mres(m):
     return ("bad", m)
 
 
+class BudgetExceeded(Exception):
+    """raised by the harness's counting functions / pricers when the code under test keeps evaluating them far beyond `max_iter`"""
+
+
+def eval_budget(max_iter):
+    """`max_iter` bounds the number of bisection steps; each step evaluates the function once, plus the evaluations at the two ends of the
+    bracket that decide the direction (twice for a decreasing function): max_iter + 4 in the code as it is.  The budget is deliberately
+    generous (any sensible variant of the loop stays inside it); a search that ignores max_iter does not."""
+    return 2 * max_iter + 16
+
+
+def binade_gap(x, mant):
+    """spacing of the floats with `mant` mantissa bits in the binade that contains x > 0"""
+    return 2.0 ** (math.floor(math.log2(x)) - (mant - 1))
+
+
 RESOLUTION_PRECISIONS = {
     # spacing of the floats in [1, 2): 2^-23 = 1.19e-7 (float32), 2^-52 = 2.2e-16 (float64)
     "float32": ([1e-9, 1e-10, 1e-8, 1e-7, 2.0 ** -30, 0.0], [2.0 ** -23, 1e-6, 1e-4]),
@@ -195,6 +216,11 @@ def gen_resolution_case(g):
     # a bracket given as Python floats becomes a float32 tensor (torch.as_tensor) whatever the dtype of the targets
     form = g.weighted([("tensor", 3), ("tensor0", 1), ("pyfloat", 1)])
     bracket_dt = "float32" if form == "pyfloat" else target_dt
+    # entry point: bisect itself, or find_implied_volatility(pricer, price, lower, upper, precision, max_iter, **params) with the family as the
+    # pricer (volatility = x): it converts the bracket to the dtype of the prices and hands precision / max_iter on
+    entry = g.weighted([("bisect", 3), ("find_implied_volatility", 2)])
+    if entry == "find_implied_volatility":
+        bracket_dt = target_dt
     mant = MANT[bracket_dt]
     n = g.small((1, 1, 2, 3, 4))
     dec = g.chance(0.5)
@@ -215,11 +241,13 @@ def gen_resolution_case(g):
         e.append(mant - 1 + g.randint(2, 9))
     unreach, reach = RESOLUTION_PRECISIONS[bracket_dt]
     prec = g.choice(unreach) if g.chance(0.7) else g.choice(reach)
-    max_iter = g.choice([100, 200, 1000])
+    max_iter = g.choice([100, 200, 1000, 100, 30, 5, 0])        # also budgets too small for a reachable precision
     if prec == 0.0 and g.chance(0.5):
         max_iter = 1200            # more halvings than a double has exponents
     case = dict(target_dtype=target_dt, bracket_dtype=bracket_dt, form=form, dec=dec, lower=lower, upper=upper, a=a, c=c, k=k, e=e,
                 precision=prec, max_iter=max_iter)
+    if entry != "bisect":
+        case["entry"] = entry
     # the same bracket objects (tensors of the full shape, 0-dim tensors or floats) serve up to two further calls for other functions of
     # the family (new c_i, k_i, e_i: roots elsewhere in the bracket): each round is a complete case of its own, "round" = its index
     rounds = [case]
@@ -240,7 +268,13 @@ def run_resolution_case(torch, c, bracket=None):
     A = torch.tensor([float(x) for x in c["a"]], dtype=tdt)
     C = torch.tensor([float(x) for x in c["c"]], dtype=tdt)
     target = torch.tensor([float(a * F(k, 1 << e)) for a, k, e in zip(c["a"], c["k"], c["e"])], dtype=tdt)
-    fn = lambda x: A * (x - C)
+    calls = [0]
+
+    def fn(x):
+        calls[0] += 1
+        if calls[0] > eval_budget(c["max_iter"]):
+            raise BudgetExceeded(f"{calls[0]} evaluations with max_iter={c['max_iter']}")
+        return A * (x - C)
     if bracket is not None:
         lower, upper = bracket
     elif c["form"] == "pyfloat":
@@ -253,7 +287,12 @@ def run_resolution_case(torch, c, bracket=None):
     # the data is what the exact description says it is (nothing was rounded on the way into the tensors)
     assert [F(x) for x in target.tolist()] == [a * F(k, 1 << e) for a, k, e in zip(c["a"], c["k"], c["e"])]
     assert [F(x) for x in C.tolist()] == c["c"]
-    st, v, mut = call_impl(bisect, fn, target, lower, upper, precision=c["precision"], max_iter=c["max_iter"])
+    if c.get("entry") == "find_implied_volatility":
+        from pfhedge._utils.bisect import find_implied_volatility
+        st, v, mut = call_impl(find_implied_volatility, lambda volatility, shift: fn(volatility + shift), target, lower=lower, upper=upper,
+                               precision=c["precision"], max_iter=c["max_iter"], shift=0.0)
+    else:
+        st, v, mut = call_impl(bisect, fn, target, lower, upper, precision=c["precision"], max_iter=c["max_iter"])
     if st == "ok":
         ve = v.expand(len(c["a"])) if v.dim() == 0 else v
         # float32 -> float64 is exact and injective (no NaN here), so these are the element's bits
@@ -699,6 +738,272 @@ def check(ctx):
                              "requested precision", case, key=f"implied_volatility:{which}:from_derivative:{omit}{sfx}",
                              detail={"path": i, "step": j, "iv": float(iv[i, j]), "log_moneyness": float(S[i, j]),
                                      "max_log_moneyness": float(M[i, j]) if M is not None else None, "time_to_maturity": float(T_[i, j])})
+    # ---------------- the MODULES' implied_volatility with precisions at / below the floating-point resolution of the data (float32 -- pfhedge's
+    # default dtype -- with 1e-8 .. 1e-12, float64 with 1e-16 .. 1e-18, precision 0): all module kinds, calls and puts, prices increasing and
+    # decreasing in volatility, vectors, modules built directly and from a simulated derivative (state omitted).  The outcome is RuntimeError
+    # (find_implied_volatility allows 100 steps) or a volatility that really is within `precision` -- never a looser answer handed back in
+    # silence.  Independent oracle of "cannot be reached": for some element the price crosses the target between 0.75 sigma and 1.25 sigma by a
+    # margin far above the rounding noise (checked with a float64 module on the same state), so the search ends on two NEIGHBOURING floats near
+    # sigma, and `precision` is below half the spacing of the floats in the binade of 0.75 sigma: the bracket cannot get narrower than that.
+    # A counting subclass of the module bounds the number of price evaluations (max_iter = 100 inside find_implied_volatility).
+    IV_CLASSES = {"european": BSEuropeanOption, "european_put": BSEuropeanOption, "lookback": BSLookbackOption, "american_binary": BSAmericanBinaryOption}
+    IV_KINDS = ["european", "european_put", "lookback", "binary", "american_binary"] + BINARY_KINDS
+    IV_BELOW = {"float32": [1e-8, 1e-9, 1e-10, 1e-12, 2.0 ** -30, 0.0], "float64": [1e-17, 1e-18, 1e-16, 2.0 ** -60, 0.0]}
+    IV_REACH = {"float32": [None, 1e-5, 1e-4, 1e-6], "float64": [None, 1e-9, 1e-15]}
+
+    def counted_module(cls, budget):
+        calls = [0]
+
+        class Counted(cls):
+            def price(self, *args, **kwargs):
+                calls[0] += 1
+                if calls[0] > budget:
+                    raise BudgetExceeded(f"{calls[0]} price evaluations")
+                return super().price(*args, **kwargs)
+        Counted.__name__ = cls.__name__
+        return Counted, calls
+
+    def iv_true_root(ref, state64, P64, dec):
+        """the volatility in [0.001, 1] at which the float64 price equals P: own bisection, 90 halvings (used only to judge a returned value)"""
+        lo, hi = torch.full_like(P64, 0.001), torch.full_like(P64, 1.0)
+        for _i in range(90):
+            mid = (lo + hi) / 2
+            below = (ref.price(*state64, mid) < P64) != dec          # the root is above mid
+            lo, hi = torch.where(below, mid, lo), torch.where(below, hi, mid)
+        return (lo + hi) / 2
+
+    iv_res_corpus = [(w_, "float32", 1e-10, "direct") for w_ in IV_KINDS] + [(w_, "float64", 1e-17, "direct") for w_ in ("european", "binary_itm", "lookback")] + \
+                    [(w_, "float32", pr_, "from_derivative") for w_, pr_ in (("european", 1e-10), ("lookback", 0.0), ("american_binary", 1e-9), ("european_put", 1e-12))]
+    for it_ in range(len(iv_res_corpus) + (70 if ctx.tier == "quick" else 900)):
+        which = g.choice(IV_KINDS)
+        dtn = g.choice(["float32", "float32", "float64"])
+        prec = g.choice(IV_BELOW[dtn]) if g.chance(0.8) else g.choice(IV_REACH[dtn])
+        source = g.weighted([("direct", 4), ("from_derivative", 1)])
+        corpus = it_ < len(iv_res_corpus)
+        if corpus:
+            which, dtn, prec, source = iv_res_corpus[it_]
+        if source == "from_derivative" and which not in IV_CLASSES:
+            source = "direct"
+        dt = getattr(torch, dtn)
+        mant = MANT[dtn]
+        k = g.choice([0.5, 1.0, 2.0])
+        cls = IV_CLASSES.get(which, BSEuropeanBinaryOption)
+        Counted, calls = counted_module(cls, eval_budget(100))
+        ckw = {"strike": k} if which in ("lookback", "american_binary") else {"strike": k, "call": which in ("european", "binary", "binary_itm", "binary_atm")}
+        dec = which in ("binary_itm", "binary_atm", "binary_put_itm")      # the price falls with the volatility
+        ref = cls(**ckw)
+        if source == "direct":
+            n_ = 3 if corpus else g.small((1, 2, 3, 5))
+            ss, ts, ms, sigs = [], [], [], []
+            for i_ in range(n_):
+                t = g.choice([0.1, 0.5, 1.0, 2.0])
+                if which in ("binary", "american_binary", "binary_put_itm"):
+                    s = g.r.uniform(-0.3, -0.02)
+                    if which != "american_binary":
+                        t = -s
+                elif which in ("binary_itm", "binary_put_otm"):
+                    s = g.r.uniform(0.0, 0.3)
+                elif which == "binary_atm":
+                    s = 0.0
+                else:
+                    s = g.r.uniform(-0.3, 0.3)
+                if corpus:
+                    s = 0.0 if which == "binary_atm" else [0.05, 0.1, 0.08][i_] * (-1 if which in ("european", "lookback", "binary", "american_binary", "binary_put_itm") else 1)
+                    t = -s if which in ("binary", "binary_put_itm") else [0.5, 1.0, 0.25][i_]
+                ss.append(s)
+                ts.append(t)
+                ms.append(s if which == "american_binary" else max(s, 0.0) + g.choice([0.0, 0.1]))
+                sigs.append([0.2, 0.45, 0.7][i_] + 1e-8 / 3 if corpus else g.r.uniform(0.02, 0.95))
+            m = Counted(**ckw)
+            S, T_, V = torch.tensor(ss, dtype=dt), torch.tensor(ts, dtype=dt), torch.tensor(sigs, dtype=dt)
+            state = (S, torch.tensor(ms, dtype=dt), T_) if which in ("lookback", "american_binary") else (S, T_)
+            P = ref.price(*state, V).detach()
+            args = state + (P,)
+            case = {"which": which, "dtype": dtn, "s": S.tolist(), "t": T_.tolist(), "sigma": V.tolist(), "k": k, "precision": prec, "built": "direct"}
+            if len(state) == 3:
+                case["max_log_moneyness"] = state[1].tolist()
+        else:
+            sig = 0.2 if corpus else g.choice([0.2, 0.3, 0.5, 0.8])
+            k = g.choice([1.05, 1.1]) if which == "american_binary" else g.choice([0.9, 1.0, 1.1])
+            ckw["strike"] = k
+            ref = cls(**ckw)
+            n_steps, dt_, n_paths, tseed = g.randint(2, 6), g.choice([1 / 250, 1 / 50, 1 / 12]), g.randint(1, 4), g.randint(0, 2 ** 31 - 1)
+            torch.manual_seed(tseed)
+            stock = BrownianStock(sigma=sig, dt=dt_, dtype=dt)
+            from pfhedge.instruments import AmericanBinaryOption
+            dcls = {"european": EuropeanOption, "european_put": EuropeanOption, "lookback": LookbackOption, "american_binary": AmericanBinaryOption}[which]
+            deriv = dcls(stock, strike=k, maturity=n_steps * dt_, **({"call": which == "european"} if dcls is EuropeanOption else {}))
+            deriv.simulate(n_paths=n_paths)
+            m = Counted.from_derivative(deriv)
+            S, T_ = deriv.log_moneyness().detach(), deriv.time_to_maturity().detach()
+            state = (S, deriv.max_log_moneyness().detach(), T_) if which in ("lookback", "american_binary") else (S, T_)
+            V = torch.full_like(S, sig)
+            P = ref.price(*state, V).detach()
+            args = ()
+            case = {"which": which, "dtype": dtn, "sigma": float(V[0, 0]), "k": k, "precision": prec, "built": "from_derivative (state omitted)", "n_steps": n_steps,
+                    "dt": dt_, "n_paths": n_paths, "torch_seed": tseed, "spot": stock.spot.tolist()}
+        kw = {} if prec is None else {"precision": prec}
+        preq = 1e-6 if prec is None else prec
+        calls[0] = 0
+        if source == "direct":
+            st, iv, mut = call_impl(m.implied_volatility, *args, **kw)
+        else:
+            st, iv, mut = call_impl(m.implied_volatility, price=P, **kw)
+        ctx.case(case, True, tag="iv_resolution")
+        ctx.traces += 1
+        if mut:
+            ctx.mutated(f"implied_volatility:{which}", mut, case)
+        # oracle (float64 module, the numbers of the tensors taken exactly)
+        state64, P64, V64 = tuple(x.double() for x in state), P.double(), V.double()
+        a_, b_ = (0.75 * V64).clamp(min=0.001), (1.25 * V64).clamp(max=1.0)
+        scale = torch.maximum(P64.abs(), torch.full_like(P64, k))
+        margin = (2e-5 if dtn == "float32" else 1e-12) * scale
+        pa, pb = ref.price(*state64, a_), ref.price(*state64, b_)
+        crossing = ((pa > P64 + margin) & (pb < P64 - margin)) if dec else ((pa < P64 - margin) & (pb > P64 + margin))
+        crossing = crossing & (0.75 * V64 > 0.001)
+        gap = torch.tensor([binade_gap(x, mant) / 2 for x in (0.75 * V64).reshape(-1).tolist()], dtype=torch.float64).reshape(V64.shape)
+        stuck = crossing & (preq < gap)                   # elements whose bracket cannot get as narrow as `precision`
+        unreachable = bool(stuck.any())
+        reachable = preq >= 2.0 ** -mant * 2               # not below the spacing of the floats anywhere in [0.001, 1]; at most 60 halvings
+        ctx.stats[f"iv_resolution:{dtn}:{'certainly-unreachable' if unreachable else ('reachable' if reachable else 'undecided')}:{st if st == 'ok' else iv}"] += 1
+        kp = f"implied_volatility:{which}:{dtn}"
+        if st != "ok":
+            if iv == "other:BudgetExceeded":
+                ctx.fail("implied_volatility keeps evaluating the price far beyond the 100 steps of find_implied_volatility instead of stopping with an error", case,
+                         key=f"implied_volatility:{which}:evaluations-beyond-max_iter", detail={"price_evaluations": calls[0]})
+            elif iv != "runtime_error":
+                ctx.fail("implied_volatility raised something else than RuntimeError for a price generated by the same module", case, key=kp + ":resolution:error", detail=iv)
+            elif reachable:
+                ctx.fail("implied_volatility stopped with an error although the requested precision is not below the resolution of the dtype", case,
+                         key=kp + ":reachable:error", detail=iv)
+            continue
+        if tuple(iv.shape) != tuple(P.shape) or iv.dtype != P.dtype:
+            ctx.fail("implied_volatility returned a tensor of another shape / dtype than the price", case, key=kp + ":resolution:error", detail=[list(iv.shape), str(iv.dtype)])
+            continue
+        iv64 = iv.detach().double()
+        if unreachable:
+            # it returned although the bracket of some element cannot have become narrower than `precision`: fine only if the returned values
+            # really are within `precision` of the volatility at which the (float64) price equals the given price
+            root = iv_true_root(ref, state64, P64, dec)
+            off_ = (iv64 - root).abs()
+            if bool((stuck & ~(off_ <= preq)).any()):
+                idx = [int(z) for z in (stuck & ~(off_ <= preq)).nonzero()[0]]
+                at = tuple(idx)
+                ctx.fail("implied_volatility returned WITHOUT an error although the requested precision is below the floating-point resolution of the data, and "
+                         "the returned volatility is not within that precision: a looser answer is handed back silently", case,
+                         key=kp + ":precision-below-resolution",
+                         detail={"element": idx, "iv": float(iv64[at]), "volatility_reproducing_the_price": float(root[at]), "generating_sigma": float(V64[at]),
+                                 "|iv-root|": float(off_[at]), "precision": preq, "spacing_of_floats_near_sigma >=": float(gap[at])})
+            continue
+        far = (iv64 - V64).abs() > preq * (1 + 1e-9) + 1e-300
+        if bool(far.any()):
+            tol = (4e-6 if dtn == "float32" else 1e-13) * torch.maximum(scale, torch.ones_like(scale))
+            bad = far & ~((ref.price(*state64, iv64) - P64).abs() <= tol)
+            ctx.stats["iv_ill_conditioned"] += int((far & ~bad).sum())
+            if bool(bad.any()):
+                idx = [int(z) for z in bad.nonzero()[0]]
+                ctx.fail("implied volatility does not reproduce the generating volatility to the requested precision", case, key=kp + ":value",
+                         detail={"element": idx, "iv": float(iv64[tuple(idx)]), "sigma": float(V64[tuple(idx)]), "precision": preq})
+    # ---------------- find_implied_volatility with the caller's max_iter (0 .. 1000) and precisions from ordinary to below the resolution of the
+    # dtype (float64 and float32 prices), user pricers increasing / decreasing in volatility and the pricing method of a Black-Scholes module:
+    # an error when the precision cannot be reached within max_iter steps, the volatility within `precision` when it clearly can, and never
+    # more evaluations of the pricer than max_iter allows
+    for it_ in range(110 if ctx.tier == "quick" else 1200):
+        form = g.choice(["exp", "rational", "square", "affine", "bs_european", "bs_binary_itm"])
+        dtn = g.choice(["float64", "float64", "float32"])
+        dt, mant = getattr(torch, dtn), MANT[dtn]
+        n_ = g.small((1, 2, 3, 5))
+        max_iter = g.choice([0, 3, 10, 25, 60, 100, 1000])
+        prec = g.choice([1e-4, 1e-6, 1e-9, 1e-2] if g.chance(0.6) else IV_BELOW[dtn])
+        sigs = [g.r.uniform(0.02, 0.95) for _ in range(n_)]
+        calls = [0]
+
+        def count():
+            calls[0] += 1
+            if calls[0] > eval_budget(max_iter):
+                raise BudgetExceeded(f"{calls[0]} evaluations with max_iter={max_iter}")
+        if form.startswith("bs_"):
+            dec = form == "bs_binary_itm"
+            mod = BSEuropeanBinaryOption() if dec else BSEuropeanOption(call=g.chance(0.5), strike=g.choice([1.0, 2.0]))
+            ss_ = [g.r.uniform(0.02, 0.3) if dec else g.r.uniform(-0.2, 0.2) for _ in range(n_)]
+            ts_ = [g.choice([0.25, 0.5, 1.0]) for _ in range(n_)]
+            S, T_ = torch.tensor(ss_, dtype=dt), torch.tensor(ts_, dtype=dt)
+
+            def pricer(volatility, log_moneyness, time_to_maturity):
+                count()
+                return mod.price(log_moneyness, time_to_maturity, volatility)
+            params = dict(log_moneyness=S, time_to_maturity=T_)
+            price = mod.price(S, T_, torch.tensor(sigs, dtype=dt)).detach()
+            desc = {"pricer": repr(mod) + ".price", "log_moneyness": ss_, "time_to_maturity": ts_}
+            well_conditioned = False
+        else:
+            dec = g.chance(0.6)
+            sg = -1.0 if dec else 1.0
+            A = [g.r.uniform(0.5, 3.0) for _ in range(n_)]
+            B = [g.r.uniform(0.5, 2.0) for _ in range(n_)]
+            off = g.choice([0.0, g.r.uniform(-1, 1)])
+
+            def h(b, v, tt, form=form):
+                if form == "exp":
+                    return tt.exp(b * v)
+                if form == "rational":
+                    return v / (b + v) + v
+                if form == "square":
+                    return (v + b) * (v + b)
+                return b * v
+
+            def pricer(volatility, scale, shape, offset=0.0, sg=sg):
+                count()
+                return sg * scale * h(shape, volatility, torch) + offset
+            params = dict(scale=torch.tensor(A, dtype=dt), shape=torch.tensor(B, dtype=dt), offset=off)
+            price = pricer(torch.tensor(sigs, dtype=dt), **params).detach()
+            desc = {"pricer": form, "scale": A, "shape": B, "offset": off}
+            well_conditioned = True
+        sig_t = torch.tensor(sigs, dtype=dt).double()
+        calls[0] = 0
+        st, val, mut = call_impl(find_implied_volatility, pricer, price, precision=prec, max_iter=max_iter, **params)
+        direction = "decreasing" if dec else "increasing"
+        case = desc | {"dtype": dtn, "decreasing": dec, "sigma": sig_t.tolist(), "precision": prec, "max_iter": max_iter}
+        ctx.case(case, True, tag="find_iv_max_iter")
+        ctx.traces += 1
+        if mut:
+            ctx.mutated("find_implied_volatility", mut, case)
+        # halvings of the default bracket [0.001, 1]: the float widths follow 0.999 / 2^j up to rounding (one step of slack either way)
+        need, w = 0, 0.999
+        while w > prec and need < 5000:
+            w /= 2
+            need += 1
+        below = any(prec < binade_gap(0.75 * v, mant) / 2 for v in sig_t.tolist())
+        must_raise = need > max_iter + 1 or (below and well_conditioned)
+        must_return = (not below) and prec >= 64 * 2.0 ** -mant and need <= max_iter - 1
+        ctx.stats[f"find_iv_max_iter:{dtn}:{'must-raise' if must_raise else ('must-return' if must_return else 'either')}:{st if st == 'ok' else val}"] += 1
+        kp = f"find_implied_volatility:{direction}:max_iter"
+        if st != "ok" and val == "other:BudgetExceeded":
+            ctx.fail("find_implied_volatility keeps evaluating the pricer far beyond max_iter instead of stopping with an error", case,
+                     key=f"find_implied_volatility:{direction}:evaluations-beyond-max_iter", detail={"evaluations": calls[0], "max_iter": max_iter})
+            continue
+        if st != "ok" and val != "runtime_error":
+            ctx.fail("find_implied_volatility raised something else than RuntimeError for a price generated by the same (monotone) pricer", case,
+                     key=kp + ":error", detail=val)
+            continue
+        if must_raise and st == "ok":
+            ctx.fail("find_implied_volatility did not stop with an error although the requested precision cannot be reached within max_iter steps", case,
+                     key=kp + ":not-raised", detail={"halvings_needed": need, "max_iter": max_iter, "precision_below_resolution": below,
+                                                    "returned": val.reshape(-1).tolist()[:5]})
+            continue
+        if must_return and st != "ok":
+            ctx.fail("find_implied_volatility stopped with an error although the precision is reachable within max_iter steps", case,
+                     key=kp + ":raised", detail={"halvings_needed": need, "max_iter": max_iter})
+            continue
+        if st == "ok" and well_conditioned:
+            # slope of the pricer >= 0.05: its float evaluation moves the root by < 1e-12 (float64); float32: 64 ulps of the price over the slope
+            noise = 1e-12 if dtn == "float64" else 64 * 2.0 ** -24 * (float(price.abs().max()) + abs(off) + 1.0) / 0.05
+            got = val.double().reshape(-1).tolist()
+            for r_, x_ in zip(sig_t.tolist(), got):
+                if not abs(x_ - r_) <= prec * (1 + 1e-9) + noise:
+                    ctx.fail(f"find_implied_volatility (caller's max_iter) does not recover the volatility that generated the price of a pricer that is {direction} "
+                             "in volatility", case, key=kp + ":value", detail={"sigma": r_, "iv": x_, "precision": prec})
+                    break
     # ---------------- precisions at / below the resolution of the bracket's dtype (exact affine family, judged with Fractions)
     fp_reqs, fp_impl = [], []
     for _ in range(200 if ctx.tier == "quick" else 2500):
@@ -719,6 +1024,23 @@ def check(ctx):
             ctx.traces += 1
             roots = [ci + F(ki, 1 << ei) for ci, ki, ei in zip(c["c"], c["k"], c["e"])]
             cls = "root" if reachable else "precision-below-resolution"
+            entry = c.get("entry", "bisect")
+            ctx.stats[f"resolution:entry={entry}"] += 1
+            if entry != "bisect":
+                again = ":" + entry + again
+            if st != "ok" and val == "other:BudgetExceeded":
+                ctx.fail("the search keeps evaluating the function far beyond max_iter instead of stopping with an error", canon,
+                         key=f"bisect:{c['bracket_dtype']}:evaluations-beyond-max_iter{again}", detail={"max_iter": c["max_iter"], "decreasing": c["dec"]})
+                continue
+            # halvings needed from the widest bracket (exact: the brackets are dyadic and `precision` is not below their resolution)
+            need0, w0 = 0, max(u - l for l, u in zip(c["lower"], c["upper"]))
+            while reachable and w0 > prec:
+                w0 /= 2
+                need0 += 1
+            if st == "ok" and reachable and need0 > c["max_iter"]:
+                ctx.fail("bisect did not stop with an error when max_iter is insufficient", canon, key=f"bisect:{c['bracket_dtype']}:max_iter{again}",
+                         detail={"needed": need0, "max_iter": c["max_iter"]})
+                continue
             if st == "ok":
                 for i, (x, r) in enumerate(zip(val, roots)):
                     if isinstance(x, str) or abs(x - r) > prec:
@@ -763,4 +1085,9 @@ def check(ctx):
              "precisions below the float32/float64 resolution on an exactly evaluated affine family (also run bit for bit against the generic model in "
              "IEEE binary32/binary64 arithmetic, op bisect_fp); the caller's bracket / target / state / price tensors used again for a second and third call "
              "(bisect on all families incl. the model ops, find_implied_volatility with per-element tensor brackets, the modules' implied_volatility on "
-             "vectors); non-trivial = valid bracket; distinct = sha1 of canonical case")
+             "vectors); the resolution family also through find_implied_volatility (bracket converted to the dtype of the prices) and with max_iter in "
+             "{0,5,30}, every function / pricer counted (no more evaluations than max_iter allows); the modules' implied_volatility (all kinds, calls / puts, "
+             "increasing / decreasing, direct and from a simulated derivative) on float32 / float64 data with precisions 1e-8..1e-12 / 1e-16..1e-18 / 0: "
+             "RuntimeError or really within precision (oracle: float64 module, crossing certified by a margin, spacing of the floats near sigma); "
+             "find_implied_volatility with the caller's max_iter in {0..1000} on user pricers and module prices; "
+             "non-trivial = valid bracket; distinct = sha1 of canonical case")
